@@ -578,3 +578,45 @@ def _derives_from_call(B, o, bbs, depth=0):
     if o[0] == 'un':
         return _derives_from_call(B, o[2], bbs, depth + 1)
     return False
+
+
+_run_before_reset_rule = run
+
+
+def run(ctx):
+    _run_before_reset_rule(ctx)
+    counters_never_replaced(ctx, 'C16.6-counters-never-replaced')
+
+
+def counters_never_replaced(ctx, rule):
+    """the node's counters live as long as the node: no method puts new ones in their place"""
+    P = ctx.P
+    ctx.rule(rule, 'no method of a live node assigns the node as a whole, or its pid allocator / reference counter field: a fresh counter starts again at the values already handed out '
+             '(references and pids may be made before start() and after a failed one). A rule about what must not be there', floor=0)
+    FIELDS = ('pid_allocator', 'reference_counter')
+    n = 0
+    for q in sorted(ctx.F.bodies):
+        if not q.startswith('edp_node::node::Node::') or '::tests::' in q or ctx.F.bodies[q]['kind'] not in ('Fn', 'AssocFn', 'Closure'):
+            continue
+        DB = P.B(q)
+        for bb, j, st in DB.stmts():
+            if st['k'] != '=' or bb not in DB.live_blocks():
+                continue
+            pl = st['pl']
+            pp = [x for x in (pl.get('p') or [])]
+            names = [x.get('n') if isinstance(x, dict) else x for x in pp]
+            lty = DB.local_ty(pl['l'])
+            # `*self = ...` in a method is (*_1); in the body of an async method it is (*(_1.self)) - a deref of the captured &mut Node
+            plain = [str(x).replace('upvar:', '') for x in names]
+            whole = bool(plain) and plain[-1] == '*' and set(plain) <= {'*', 'self'} and ((lty.replace(' ', '').endswith('mutedp_node::node::Node')) or (pl['l'] == 1 and 'self' in plain))
+            fld = [x for x in names if x in FIELDS]
+            if fld and names[-1] in FIELDS:
+                n += 1
+                ctx.bad(rule, '%s:%s' % (q.split('::{')[0].rsplit('::', 1)[1], fld[0]), '%s assigns the node\'s %s: the new counter starts at values the old one has already handed out' % (q.split('::{')[0].rsplit('::', 1)[1], fld[0]),
+                        ctx.where(DB, ln=st['ln']), key='SHAPE:%s:replaces-%s' % (q.split('::{')[0], fld[0]))
+            elif whole:
+                n += 1
+                ctx.bad(rule, '%s:self' % q.split('::{')[0].rsplit('::', 1)[1], '%s assigns the whole node (*self = ...): allocator and reference counter are replaced by fresh ones that start at values already handed out' % q.split('::{')[0].rsplit('::', 1)[1],
+                        ctx.where(DB, ln=st['ln']), key='SHAPE:%s:replaces-self' % q.split('::{')[0])
+    if n == 0:
+        ctx.ok(rule, 'none', 'no method assigns the node or one of its counters')
